@@ -233,16 +233,25 @@ CLI_DEFECTS = {
                 "tachyon": None},
     "slha": {"MW>=MZ": ("SMINPUTS", 9, "mz*1.1"), "MZ=0": ("SMINPUTS", 4, 0.0), "mmu=0": ("SMINPUTS", 13, 0.0),
              "mu=0": ("HMIX", 1, 0.0), "M1=0": ("MSOFT", 1, 0.0), "M2=0": ("MSOFT", 2, 0.0), "tanb=0": ("HMIX", 2, 0.0),
-             "negsoft": ("MSOFT", 31, -500.0)},
+             "negsoft": ("MSOFT", 31, -500.0), "hugeTB": None},
     "thdm": {"tanb<=0": ("MINPAR", 3, -1.0), "mh>mH": None, "|sba|>1": ("MINPAR", 20, 1.5), "negmass": ("MASS", 37, -300.0),
              "both-bases": None, "neither-basis": None, "yukawa-type": ("MINPAR", 24, 7)},
 }
 
 
-def cli_apply(content, defect):
+SLHA_SOFT_KEYS = (31, 33, 34, 36, 41, 42, 43, 44, 45, 46, 47, 48, 49)   # 32, 35 are outputs of the conversion
+GM2_SOFT_KEYS = (7, 8, 9, 10, 11, 12, 13, 14, 15)
+
+
+def cli_apply(content, defect, pick=None):
     kind = content["kind"]
     spec = CLI_DEFECTS[kind][defect]
     c = content
+    if defect == "negsoft" and pick is not None and kind == "slha":
+        spec = ("MSOFT", SLHA_SOFT_KEYS[pick % len(SLHA_SOFT_KEYS)], -(100.0 + 50.0 * (pick % 17)))
+    if defect == "hugeTB":
+        b = slha.find_block(content, "HMIX")
+        return slha.with_entry(c, "HMIX", 2, 1000.0, q=b["q"]) if b is not None else None
     if defect == "tachyon":
         for k, v in ((3, 50.0), (4, 4000.0), (11, 100.0), (14, 100.0)):
             c = slha.with_entry(c, "GM2CalcInput", k, v)
@@ -281,10 +290,20 @@ def cli_apply(content, defect):
 def cli_case(draw):
     content = draw(slha.contents())
     kind = content["kind"]
-    names = sorted(CLI_DEFECTS[kind])
+    names = sorted(k for k in CLI_DEFECTS[kind] if k != "hugeTB")
     n = draw(st.sampled_from([0, 1, 1, 1, 2]))
     defects = draw(st.lists(st.sampled_from(names), min_size=n, max_size=n, unique=True))
-    return {"content": content, "defects": defects, "force": draw(st.booleans()), "fmt": draw(st.sampled_from([0, 4, 1, 2, 3]))}
+    force = draw(st.booleans())
+    stress = []
+    pick = draw(st.integers(0, 1000))
+    if kind == "slha" and draw(st.integers(0, 3)) == 0:
+        # a flagged problem (negative soft mass / tachyon) together with a non-convergence warning of the conversion
+        defects = ["negsoft"] + draw(st.sampled_from([[], ["M2=0"], ["M1=0"], ["mu=0"]]))
+        if len(defects) == 1 or draw(st.booleans()):
+            stress = ["hugeTB"]
+        force = True
+    return {"content": content, "defects": defects, "force": force, "fmt": draw(st.sampled_from([0, 4, 1, 2, 3])),
+            "stress": stress, "pick": pick}
 
 
 def has_amu(kind, fmt, out):
@@ -301,6 +320,11 @@ def prop_cli(case):
     kind = content["kind"]
     c = content
     for d in defects:
+        c = cli_apply(c, d, case.get("pick"))
+        if c is None:
+            discard("defect-not-expressible")
+            return None
+    for d in case.get("stress", []):     # not a defect: a valid but extreme value that makes the conversion warn
         c = cli_apply(c, d)
         if c is None:
             discard("defect-not-expressible")
@@ -340,6 +364,10 @@ def prop_cli(case):
             bad.append(("refusal without diagnostic",))
         if not refused:
             want = 1 if mssm_problem else 0
+            if mssm_problem and lib.get("have_warning") == 1:
+                label("result-with-problem-and-warning")
+            elif mssm_problem:
+                label("result-with-problem")
             if status != want:
                 bad.append(("exit status inconsistent with the outcome", status, "expected", want))
             if defects and force and "arning" not in err and not spinfo3 and not mssm_problem:
@@ -365,6 +393,6 @@ def subchecks(ctx):
             classes=lambda c: ["defects:%d" % len(c["defects"]), "force:%d" % int(c["force"])] + ["d:" + d for d in c["defects"]],
             rule="THDM mass-basis point x defects x force-output through the C++ API"),
         Sub("program", cli_case(), prop_cli, {"quick": 120, "thorough": 4000}, nontrivial=lambda c: True,
-            classes=lambda c: ["kind:" + c["content"]["kind"], "force:%d" % int(c["force"]), "fmt:%d" % c["fmt"]] + ["d:" + d for d in c["defects"]],
+            classes=lambda c: ["kind:" + c["content"]["kind"], "force:%d" % int(c["force"]), "fmt:%d" % c["fmt"]] + ["d:" + d for d in c["defects"]] + ["stress:" + d for d in c.get("stress", [])],
             rule="input file x defects x force-output x output format through the program"),
     ]
